@@ -2,6 +2,7 @@
 //! oracles, writing the protocol described in ctx.rs to stdout.
 //! Environment: VERIF_SEED (default 1), VERIF_TIER (quick|thorough, default quick).
 mod ctx;
+mod items;
 mod props {
     include!(concat!(env!("OUT_DIR"), "/props.rs"));
 }
